@@ -76,11 +76,27 @@ def form_of(rng, comps):
     return [rc.comp_to_canonical_uri(c) if rng.random() < 0.5 else bytearray(c) for c in comps], 'mixed'
 
 
+class FalsyCallable(dict):
+    """A legal handler object (any callable is) whose truth value is False: a container that is also the handler, while it is empty."""
+    def __init__(self, fn):
+        super().__init__()
+        self.fn = fn
+
+    def __call__(self, *a, **kw):
+        return self.fn(*a, **kw)
+
+
+class HandlerFault(RuntimeError):
+    pass
+
+
 class Target:
     """Uniform driver over the three dispatch front-ends."""
     def __init__(self, kind, log):
         self.kind = kind
         self.log = log
+        self.raise_next = False
+        self.falsy_next = False
         self.face = None
         self.app = None
 
@@ -129,24 +145,41 @@ class Target:
             self.app.shutdown()
             await asyncio.wait_for(self.main, 5)
 
+    def fault(self):
+        if self.raise_next:
+            self.raise_next = False
+            raise HandlerFault('the application handler fails on this Interest')
+
     def handler(self, hid, opts=(False, False)):
+        h = self._handler(hid, opts)
+        if self.falsy_next:
+            self.falsy_next = False
+            return FalsyCallable(h)
+        return h
+
+    def _handler(self, hid, opts=(False, False)):
         if self.kind == 'v2':
             def h(name, app_param, reply, context):
                 self.log.append((hid, tuple(bytes(c) for c in name), reply, context))
+                self.fault()
         elif opts == (True, True):
             # legacy handlers have exactly the signature their delivery options ask for (as documented): a handler
             # invoked with another handler's options fails with TypeError and has then not received the Interest
             def h(name, param, app_param, *, raw_packet, sig_ptrs):
                 self.log.append((hid, tuple(bytes(c) for c in name), None, {'raw_packet': bytes(raw_packet), 'sig_ptrs': sig_ptrs}))
+                self.fault()
         elif opts == (True, False):
             def h(name, param, app_param, *, raw_packet):
                 self.log.append((hid, tuple(bytes(c) for c in name), None, {'raw_packet': bytes(raw_packet)}))
+                self.fault()
         elif opts == (False, True):
             def h(name, param, app_param, *, sig_ptrs):
                 self.log.append((hid, tuple(bytes(c) for c in name), None, {'sig_ptrs': sig_ptrs}))
+                self.fault()
         else:
             def h(name, param, app_param):
                 self.log.append((hid, tuple(bytes(c) for c in name), None, None))
+                self.fault()
         return h
 
     def attach(self, form, hid, opts=(False, False), with_validator=True):
@@ -223,6 +256,10 @@ def run_history(ctx, rng, kind, ops, label):
                 w['options'] = list(opts)
                 with_val = not (kind == 'v2' and rng.random() < 0.3)
                 w['validator'] = with_val
+                if rng.random() < 0.2:
+                    T.falsy_next = True         # the handler is a callable OBJECT whose truth value is False
+                    w['handler_object'] = 'callable, falsy'
+                    ctx.event('attach-of-a-falsy-callable-object')
                 try:
                     T.attach(form, hid, opts, with_val)
                     raised = None
@@ -297,10 +334,16 @@ def run_history(ctx, rng, kind, ops, label):
                 except Exception as e:   # noqa
                     res['viol'].append((f'detach-raises:{kind}:{type(e).__name__}:{fl}', f'detaching an attached prefix raised {e!r}', w))
                     del attached[pre]
-            elif op[0] == 'interest':
+            elif op[0] in ('interest', 'interest-handler-raises'):
                 name = tuple(op[1])
                 n0 = len(log)
                 nerr = len(S.sentinel.all())
+                faulty = op[0] == 'interest-handler-raises'
+                if faulty:
+                    # the handler that receives this Interest raises (its own business) - the Interest has still reached exactly that
+                    # handler, and every later Interest is dispatched as before
+                    T.raise_next = True
+                    w['handler_raises'] = True
                 param_at = rng.choice([None, None, None, 0, 1, 2, 9])
                 try:
                     cbp = rng.random() < 0.35
@@ -310,16 +353,24 @@ def run_history(ctx, rng, kind, ops, label):
                         ctx.event('interest-with-can-be-prefix')
                     if hop == 0:
                         ctx.event('interest-with-hop-limit-0')
+                    ret = None
                     ret = await T.interest(name, param_at=param_at, cbp=cbp, hop_limit=hop)
                     name = T.last_name          # (with the digest component where it stands)
                     if param_at is not None:
                         ctx.event('interest-parameterised-digest-at-%s' % ('end' if param_at >= len(op[1]) else 'middle'))
                         w['digest_component_at'] = param_at
+                except HandlerFault:
+                    name = T.last_name
                 except Exception as e:   # noqa
                     res['viol'].append((f'interest-delivery-raises:{kind}:{type(e).__name__}@{raising_site(e)[0]}', f'delivering an Interest raised {e!r}', w))
                     continue
+                if faulty:
+                    ctx.event('interest-whose-handler-raises' if not T.raise_next else 'interest-whose-handler-was-not-reached')
+                    T.raise_next = False
                 for le in S.sentinel.all()[nerr:]:
                     ex = le.get('exception')
+                    if faulty and (isinstance(ex, HandlerFault) or 'HandlerFault' in str(le.get('repr'))):
+                        continue
                     res['viol'].append((f'interest-background-error:{kind}:{type(ex).__name__ if ex else "?"}', f'background error while dispatching: {le.get("repr")}', w))
                 exp = lpm(attached, name)
                 got = log[n0:]
@@ -335,7 +386,7 @@ def run_history(ctx, rng, kind, ops, label):
                 if exp is None:
                     if got:
                         res['viol'].append((f'delivered-without-matching-prefix:{kind}', f'Interest reached handler {got[0][0]} although no attached prefix matches', w))
-                    if kind == 'dispatcher' and ret is not False:
+                    if kind == 'dispatcher' and ret is not False and not faulty:
                         res['viol'].append(('dispatcher-return-on-miss', 'dispatch() did not return False on a miss', w))
                 else:
                     if len(got) != 1:
@@ -346,7 +397,7 @@ def run_history(ctx, rng, kind, ops, label):
                         res['viol'].append((f'handler-name-differs:{kind}', 'handler received a different name', w))
                     elif kind == 'v1' and hopts.get(exp, (False, False))[0] and got[0][3].get('raw_packet') != T.last_wire:
                         res['viol'].append((f'handler-raw-packet-differs:{kind}', 'handler asked for the raw packet and received other bytes', w))
-                    if kind == 'dispatcher' and ret is not True:
+                    if kind == 'dispatcher' and ret is not True and not faulty:
                         res['viol'].append(('dispatcher-return-on-hit', 'dispatch() did not return True on a hit', w))
                 ctx.case((kind, tuple(sorted(attached)), name), nontrivial=len(attached) >= 2)
         await T.stop()
@@ -767,6 +818,8 @@ def run(ctx):
                     ops.append(('detach', rng.choice(pool_p), rng.choice(['200', '200', '404', 'nack', 'silence', 'garbage', 'bad-signature'])))
                 else:
                     ops.append(('detach', rng.choice(pool_p)))
+            elif k < 0.62:
+                ops.append(('interest-handler-raises', rng.choice(pool_n)))
             else:
                 ops.append(('interest', rng.choice(pool_n)))
         run_history(ctx, rng, kind, ops, 'random')
@@ -802,7 +855,7 @@ def run(ctx):
         check_burst(ctx, rng)
     check_reply(ctx, rng)
     check_reentrant(ctx, rng)
-    for k in ('inside-handler:attach', 'inside-handler:detach', 'inside-handler:detach-self', 'inside-handler:attach-occupied'):
+    for k in ('attach-of-a-falsy-callable-object', 'interest-whose-handler-raises', 'inside-handler:attach', 'inside-handler:detach', 'inside-handler:detach-self', 'inside-handler:attach-occupied'):
         ctx.need_event(k)
     for k in ('attach', 'detach', 'duplicate-attach', 'interest-hit', 'interest-miss', 'reply-sent', 'reply-late', 'attach-with-delivery-options',
               'reconnect-with-handlers-attached', 'register-without-handler-on-free-prefix', 'duplicate-route-declaration',
